@@ -375,4 +375,46 @@ theorem paf_sampler_dp_monotonic (eps sens : ℝ) (heps : 0 < eps) (hsens : 0 < 
         ← ENNReal.ofReal_mul (Real.exp_pos _).le]
       exact ENNReal.ofReal_le_ofReal h
 
+/-! ### the run returns a candidate with probability one -/
+
+theorem pafPmf_length (heads : List ℝ) : (pafPmf heads).length = heads.length := by simp [pafPmf]
+
+/-- shifting by the maximum makes one head probability 1, so the selection probabilities sum to one -/
+theorem pafPmf_sum_one (s : ℝ) (us : List ℝ) (hne : us ≠ []) :
+    (pafPmf (pafHeads (pafLogProbs (some s) us))).sum = 1 := by
+  rw [← lsum_eq, pafPmf_sum, pafHeads_length]
+  obtain ⟨i, hi, hmax⟩ := List.getElem_of_mem (pyMax_mem us hne)
+  have hz : ∏ j ∈ Finset.range us.length, (1 - (pafHeads (pafLogProbs (some s) us)).getD j 0) = 0 := by
+    apply Finset.prod_eq_zero (Finset.mem_range.mpr hi)
+    rw [pafHeads_getD, dif_pos hi, hmax, sub_self, mul_zero, Real.exp_zero, sub_self]
+  rw [hz, sub_zero]
+
+/-- **permute-and-flip returns a candidate with probability one** (finite scale): neither the round fuel `n` of the
+model nor the coin fuel is exhausted, and no run goes on for ever, except on a null set of streams -/
+theorem paf_returns_ae (s : ℝ) (hs : 0 ≤ s) (us : List ℝ) (hne : us ≠ []) (coinFuel : ℕ)
+    (hcf : ∀ x ∈ us, s * (pyMax us - x) < coinFuel) :
+    streamμ (⋃ r, Ret (pafRun (pafLogProbs (some s) us) coinFuel us.length (List.range us.length)) r)ᶜ = 0 := by
+  set l := pafPmf (pafHeads (pafLogProbs (some s) us)) with hl
+  have hlen : l.length = us.length := by rw [hl, pafPmf_length, pafHeads_length]
+  have hm : ∀ r, MeasurableSet (Ret (pafRun (pafLogProbs (some s) us) coinFuel us.length (List.range us.length)) r) :=
+    fun r => (paf_stream_law s hs us coinFuel hcf r).1
+  rw [prob_compl_eq_zero_iff (MeasurableSet.iUnion hm),
+    measure_iUnion (fun a b hab => Ret_disjoint (pafRun_mono _ _ _ _) a b hab) hm]
+  simp_rw [(paf_stream_law s hs us coinFuel hcf _).2]
+  rw [tsum_eq_sum (s := Finset.range us.length) (fun r hr => by
+    rw [List.getD_eq_default _ _ (by rw [← hl, hlen]; simpa using hr), ENNReal.ofReal_zero])]
+  have hnn : ∀ r ∈ Finset.range us.length, 0 ≤ l.getD r 0 := by
+    intro r _
+    rw [hl, pafPmf_getD]
+    split_ifs
+    · exact PAF.L_nonneg _ (fun i => pafHeads_range s hs us i) _ _
+    · exact le_refl _
+  rw [← ENNReal.ofReal_sum_of_nonneg hnn, ← hlen, Finset.sum_range]
+  have : ∑ i : Fin l.length, l.getD (i : ℕ) 0 = l.sum := by
+    rw [← Fin.sum_univ_getElem l]
+    apply Finset.sum_congr rfl
+    intro i _
+    rw [List.getD_eq_getElem _ _ i.2]
+  rw [this, hl, pafPmf_sum_one s us hne, ENNReal.ofReal_one]
+
 end DPL.Discrete
